@@ -319,8 +319,22 @@ func ruleA22(r *Run, p *Prog, rels []string) {
 	if r.Anchor(of != nil, "A22", "ConsoleWriter.orderFields") {
 		okc := false
 		for _, an := range of.AnonFuncs {
-			// last fallback: return fields[i] < fields[j]
-			eachInstr(an, func(b *ssa.BasicBlock, i int, in ssa.Instruction) {
+			// last fallback: return fields[i] < fields[j] (possibly inside a private pure helper
+			// `fieldOrderedBefore(index, a, b)` the closure delegates to: judged inlined)
+			anv := p.View(an, "", nil)
+			eachInstr(anv, func(b *ssa.BasicBlock, i int, in ssa.Instruction) {
+				var cands []ssa.Value
+				if ret, ok := in.(*ssa.Return); ok && len(ret.Results) == 1 {
+					cands = append(cands, ret.Results[0])
+					if ph, isPhi := ret.Results[0].(*ssa.Phi); isPhi {
+						cands = append(cands, ph.Edges...)
+					}
+				}
+				for _, cv := range cands {
+					if bo, ok := cv.(*ssa.BinOp); ok && bo.Op == token.LSS && isStringType(bo.X.Type()) {
+						okc = true
+					}
+				}
 				ret, ok := in.(*ssa.Return)
 				if !ok || len(ret.Results) != 1 {
 					return
